@@ -135,6 +135,7 @@ impl Property for C19 {
             "files": enc_list(&files),
             "joined": if join { J::String(enc(&gen::join_lines(&joined, true))) } else { J::Null },
             "format": rng.pick(&["text", "text", "json", "csv"]),
+            "single": rng.chance(1, 3),
         })
     }
 
@@ -153,6 +154,7 @@ impl Property for C19 {
         let defs = jstr(case, "defs");
         let stmt = jstr(case, "stmt");
         let format = jstr(case, "format");
+        let single = jbool(case, "single");
         let observable = jbool(case, "observable");
         let files: Vec<Vec<u8>> = jbytes_list(case, "files").into_iter().filter(|f| !f.is_empty()).collect();
         let joined: Option<Vec<u8>> = case.get("joined").and_then(|j| j.as_str()).map(dec);
@@ -184,12 +186,14 @@ impl Property for C19 {
                 spec.end_after_idle = Some(1);
                 spec.read_mode = ReadMode::Line;
                 spec.format = format.clone();
+                spec.single_result = single;
                 spec.interrupt = interrupt;
                 spec
             } else {
                 let mut spec = batch_spec(&defs, &stmt, &files, joined.as_deref());
                 spec.read_mode = ReadMode::Line;
                 spec.format = format.clone();
+                spec.single_result = single;
                 spec.interrupt = interrupt;
                 spec
             }
@@ -223,6 +227,7 @@ impl Property for C19 {
             }
             let mut spec = batch_spec(&defs, &stmt, &fs, joined.as_deref());
             spec.format = format.clone();
+            spec.single_result = single;
             let r = run(out, &format!("reference over first {} lines", c), &spec, false);
             if !r.terminated() || matches!(r.status, Status::Setup(_)) {
                 return None;
